@@ -41,6 +41,7 @@ package handlers
 
 //@ func (a *AuthorizeRequest) Handle(response tq.Response, request tq.Request)
 //@   implements tq.Handler.Handle
+//@   ensures[C11] ghost.hcalls == old(ghost.hcalls) + 1 ==> (ghost.authorStatus == tq.AuthorStatusFail || ghost.authorStatus == tq.AuthorStatusError)
 //@   requires a != nil && a.loggerProvider != nil && a.configProvider != nil && a.recorderWriter != nil
 
 //@ func (a *AccountingRequest) Handle(response tq.Response, request tq.Request)
